@@ -195,6 +195,24 @@ impl Block {
         &source[self.content_bytes_range.clone()]
     }
 
+    /// Returns the 1-based source line number of the content's line `line_index`.
+    ///
+    /// The content starts where the start tag's comment ends, which is not necessarily on the
+    /// start tag's line.
+    pub(crate) fn content_line_number(&self, line_index: usize) -> usize {
+        self.content_position_range.start.line + line_index
+    }
+
+    /// Returns the number of bytes that precede the content's line `line_index` on its source line
+    /// (non-zero only for the first line, which starts right after the start tag's comment).
+    pub(crate) fn content_line_column_offset(&self, line_index: usize) -> usize {
+        if line_index == 0 {
+            self.content_position_range.start.character - 1
+        } else {
+            0
+        }
+    }
+
     /// Returns the block's severity.
     pub(crate) fn severity(&self) -> anyhow::Result<BlockSeverity> {
         self.attributes
